@@ -18,7 +18,7 @@ Theorems: coq/C09/Properties_C09.v.
   l-value x / e.m / e[i] in any mix. The walk that finds the variable to test reaches the root of every path (and a walk
   that strips members and then at most one subscript is characterised: it misses exactly the paths with a subscript after
   the first step); under the policy with all 79 tests (one per path shape x store form x reason) every protected cell keeps
-  its value for every script; each test is necessary; the policy of the code lacks 23 (refuted, recorded as findings).
+  its value for every script; each test is necessary; the policy of the code lacks 19 (refuted, recorded as findings).
 Tie (every run, against /repo's current sources built by common.build_impl):
   * the full matrix as hand-written Cb templates (gen_c09.cell), const version and control twin,
     against the extracted verdicts of spec and mech;
@@ -75,7 +75,7 @@ META = {
             "members and then at most one subscript misses exactly the paths with a subscript after the first step); with all 79 tests (path shape x "
             "=, op=, ++ x reason: const variable, const last member, const member further up; whole-sub-object stores x source x reason) every "
             "scalar store and every whole-sub-object store on something protected is refused, every protected cell keeps its value and its "
-            "protection through every script, each test is necessary; the code's policy makes 56 of them, the 23 missing are refuted with "
+            "protection through every script, each test is necessary; the code's policy makes 60 of them, the 19 missing are refuted with "
             "witnesses. On every run the witnesses, the complete universe of 8 object graphs x const placements x cells / nodes x store forms "
             "(const-variable cases in every way of creating the variable, every scalar type, every right-hand-side form) and random path scripts "
             "are compared with main.",
@@ -621,7 +621,7 @@ def run(rep):
     rep.assumptions += [
         "access paths: only what the interpreter can execute on NON-const objects is compared verdict by verdict (coq/C09/Paths.v exec_set / exec_sub: x.m with =, op=, ++; x.a[i] with =; member chains x.a.b.c, x[i].a.b, x.a[i].b.c with =, op=; whole stores x = .., x.m = t, x.a[i] = t / {..}, x[i] = t / {..}); outside it (a subscript after two or more steps, two subscripts, ++ / op= on nested cells, array-typed members as a whole, nested paths behind pointers / references / self) the check demands only that no protected cell changes",
         "access paths: a script ends with the first store on which the property and the model of the code part (such a store sets is_assigned and changes later verdicts); scripts reaching Last.RootIdx are rendered without a read before the store (finding C09-const-member-in-element); a refusal through a test the model lists as missing is counted, not reported (only the site's own witness decides `repaired`)",
-        "access paths, ways of creating the variable: const MEMBERS only with ways that initialise every cell (literal, global, static); whole-sub-object stores not on const declared without initialiser (first whole assignment = initialisation) nor on copy-initialised / parameter consts (finding C09-copy-init-const-element-literal); const scalar arrays not copy-initialised (finding C09-const-array-copy-init) nor of floating type (finding C09-const-float-array); by-value struct parameters only for const variables (nested stores into non-const by-value parameters are lost); values of whole-sub-object stores from a struct VARIABLE and of string / floating array members are not compared (copies are incomplete - not a const matter)",
+        "access paths, ways of creating the variable: const MEMBERS only with ways that initialise every cell (literal, global, static); whole-sub-object stores not on const declared without initialiser (first whole assignment = initialisation) nor on copy-initialised / parameter consts (finding C09-copy-init-const-element-literal); by-value struct parameters only for const variables (nested stores into non-const by-value parameters are lost); `x[i] = x[j];` on struct-array variables only after the elements have been read (from a never-touched element the store is lost, also without const); values of whole-sub-object stores from a struct VARIABLE and of string / floating array members are not compared (copies are incomplete - not a const matter)",
         "the strict stream never attacks through a check site the implementation is known to lack (gen_c09.random_script(avoid=...)); each such site has a recorded finding, a witness and matrix cells that are run separately",
         "Ref programs: operands of the mutation attempt are literals (the implementation tests the target before evaluating the right-hand side, Ref after); programs on which Ref reports undef are discarded",
         "machine scripts use int slots only; scalar types tiny..bool, globals and parameters are covered by the matrix templates",
